@@ -71,6 +71,12 @@ CLAIMS["C07"] = (
  "Trusted: go/ssa (generic instantiations included); the parser is single-threaded per parse.",
  "static analysis: typestate/pairing on SSA (defer + dominance), closure free-variable rule for cached callbacks, call-order and error-propagation checks",
 )
+CLAIMS["C10"] = (
+ "other",
+ "Structural necessary conditions of deterministic, race-free generation, for every map order and schedule: (R10.1) every `range` over a map in the 15 generator-path packages is classified on SSA by the effects that can leave its body — keyed inserts, element-local writes, commutative accumulation, constant flags, append-then-sort and diagnostic returns are order-free; anything else must carry a reviewed reason (20 sites) or is a violation; (R10.2) every method invocable from a template (name and argument count occur in a template selector) and every FuncMap function has an empty who-may-write summary, and the goroutines of WriteSource store to no shared variable; (R10.3) package-level state is written only at initialisation and the pooled buffer is Reset before use; (R10.4) every comparator sort is keyed by what its comparator reads and needs a reviewed reason why equal keys cannot reorder map-derived input. Byte-identity of outputs, nondeterminism inside dependencies (imports.Process, yaml) and the race detector's verdict are NOT decided.",
+ "Trusted: tables/maporder_exceptions.json; E9 address-root alias approximation; text/template visits map keys in sorted order and calls a method only with the written argument count.",
+ "static analysis: SSA effect classification of map-range bodies, who-may-write summaries over the call graph for template-invocable functions, goroutine capture analysis, global-write and sort-comparator enumeration with a reviewed table",
+)
 CLAIMS["C11"] = (
  "other",
  "Panic-freedom obligations on the input-facing generator code: every explicit panic site of the generation path (17 packages) is the default of an exhaustive switch over a closed constant set, an exported IR helper reachable only from templates (text/template converts the panic into an error; checked by who-references analysis on SSA), or has a reviewed justification; every compiler-unproven bounds check on a text operand (string/[]byte/[]rune) is discharged by a dominating guard or a reviewed entry; every function of openapi/parser and jsonschema that can return (nil, nil) is enumerated from its (possibly defer-spilled) constant returns and every dereference of such a result — also after it was stored in a map and ranged — is dominated by a nil test. A new panic site, unproven text index or unchecked nullable result is a violation until triaged. Termination time, memory, stack depth and position correctness are NOT decided; bounds checks on slices of IR objects are out of scope.",
